@@ -221,10 +221,11 @@ pub fn repo_cfg() -> impl Strategy<Value = RepoCfg> {
             40 => Just(Some(0)),
             40 => (1i32..=6).prop_map(Some),
             20 => (-7i32..=-1).prop_map(Some),
-            // zstd's "ultra" levels allocate about 1 GB per compression context and the packer
-            // compresses on one thread per core: kept rare, and serialised by `ultra_gate`
+            // zstd's "ultra" levels (20–22) allocate about 1 GB per compression context, cost about a
+            // second per blob and the packer compresses on one thread per core: not generated here;
+            // C01 and C18 generate them with small sources, serialised by `ultra_gate`
+            // levels 20–22 only where the generated source is small (C01, C18), see below
             20 => (7i32..=19).prop_map(Some),
-            1 => (20i32..=22).prop_map(Some),
         ],
         chunker,
         pack(),
